@@ -66,16 +66,28 @@ type c12StressIn struct {
 	Per   int `json:"per"`   // work ids per goroutine that get check block 2
 	N1    int `json:"n1"`    // n of the concurrent Dequeue
 	After int `json:"after"` // the concurrent Dequeue is invoked once this many Enqueue calls have returned
+	// the check block the work ids are queued at, and the newer one of the concurrent Enqueue calls (Old < New);
+	// New == 0: blocks 1 and 2
+	Old uint64 `json:"old"`
+	New uint64 `json:"new"`
 }
+
+func (s c12StressIn) blocks() (uint64, uint64) {
+	if s.New == 0 {
+		return 1, 2
+	}
+	return s.Old, s.New
+}
+
 type c12StressOut struct {
-	T0  int64      `json:"t0"`
-	T1  int64      `json:"t1"`
-	T2  int64      `json:"t2"`
-	Enq [][]int64  `json:"enq"` // per goroutine: inv, ret, inv, ret, … stamps of its Enqueue calls, in order
-	D1s []int64    `json:"d1s"` // inv, ret of the concurrent Dequeue
-	D1  [][2]int64 `json:"d1"`  // (work id index, check block) handed out, in order
-	D2  [][2]int64 `json:"d2"`
-	Bad int        `json:"bad"` // handed-out payloads that are not of the case
+	T0  int64       `json:"t0"`
+	T1  int64       `json:"t1"`
+	T2  int64       `json:"t2"`
+	Enq [][]int64   `json:"enq"` // per goroutine: inv, ret, inv, ret, … stamps of its Enqueue calls, in order
+	D1s []int64     `json:"d1s"` // inv, ret of the concurrent Dequeue
+	D1  [][2]uint64 `json:"d1"`  // (work id index, check block) handed out, in order
+	D2  [][2]uint64 `json:"d2"`
+	Bad int         `json:"bad"` // handed-out payloads that are not of the case
 }
 
 // "fair": D records that fail again whenever they are retried (re-enqueued with a short interval, so all D are due
@@ -89,11 +101,12 @@ type c12FairIn struct {
 	Iv     int64 `json:"iv"`     // interval of every (re-)enqueue, ns
 	Step   int64 `json:"step"`   // virtual ns between rounds (> Iv)
 	Prefix bool  `json:"prefix"` // work ids with a long common prefix (otherwise hashes)
+	Edge   bool  `json:"edge"`   // check blocks from the ends of their domain (0, 1, 2^63, 2^64-1, …), one per record
 }
 type c12FairOut struct {
 	Counts   []int `json:"counts"`   // per record: how often it was handed out
 	Short    int   `json:"short"`    // calls that returned fewer than min(n, D) payloads
-	Foreign  int   `json:"foreign"`  // handed-out payloads that are no record of the case, or handed out twice in a call
+	Foreign  int   `json:"foreign"`  // handed-out payloads that are no record of the case (work id, check block), or handed out twice in a call
 	MaxWait  []int `json:"maxWait"`  // per record: longest run of consecutive calls in which it was due and not handed out
 	LastSeen []int `json:"lastSeen"` // per record: last round in which it was handed out (-1 never)
 }
@@ -109,6 +122,9 @@ func c12RunFair(t *testing.T, in c12Input) c12Impl {
 			ps[i] = ocr2keepers.UpkeepPayload{WorkID: fmt.Sprintf("0xabcdef%04d", i), Trigger: ocr2keepers.Trigger{BlockNumber: 7}}
 		} else {
 			ps[i] = c12GenPayload(r, true, 100)
+		}
+		if f.Edge {
+			ps[i].Trigger.BlockNumber = ocr2keepers.BlockNumber(c12EdgeBlocks[(i*5)%len(c12EdgeBlocks)])
 		}
 		ix[ps[i].WorkID] = i
 		_ = q.Enqueue(types.RetryRecord{Payload: ps[i], Interval: time.Duration(f.Iv)})
@@ -131,7 +147,7 @@ func c12RunFair(t *testing.T, in c12Input) c12Impl {
 		seen := map[int]bool{}
 		for _, p := range got {
 			i, ok := ix[p.WorkID]
-			if !ok || seen[i] {
+			if !ok || seen[i] || p.Trigger.BlockNumber != ps[i].Trigger.BlockNumber {
 				out.Foreign++
 				continue
 			}
@@ -157,7 +173,7 @@ func c12RunFair(t *testing.T, in c12Input) c12Impl {
 
 func c12GenFair(r *Rng) c12Input {
 	n := []int{1, 2, 5, 10, 10, 10}[r.Intn(6)] // 10 = flows.RetryBatchSize
-	f := c12FairIn{N: n, D: n + r.Range(1, 6), K: 1000, Iv: []int64{1, 5_000_000, int64(time.Second)}[r.Intn(3)], Prefix: r.Chance(30)}
+	f := c12FairIn{N: n, D: n + r.Range(1, 6), K: 1000, Iv: []int64{1, 5_000_000, int64(time.Second)}[r.Intn(3)], Prefix: r.Chance(30), Edge: r.Chance(35)}
 	f.Step = f.Iv + 1 + int64(r.Intn(3))*int64(flows.RetryCheckInterval)
 	return c12Input{Kind: "fair", Fair: &f}
 }
@@ -298,9 +314,10 @@ func c12GenPlugin(r *Rng) c12Input {
 	n := r.Range(1, 7)
 	var horizon int64
 	paths := [][]string{{"log"}, {"recFinal"}, {"condFinal"}, {"log", "recFinal", "condFinal"}}[r.Intn(4)]
+	block := c12BlockGen(r, func() uint64 { return uint64(r.Range(100, 120)) })
 	for i := 0; i < n; i++ {
 		path := paths[r.Intn(len(paths))]
-		p := c12GenPayload(r, path != "condFinal", uint64(r.Range(100, 120)))
+		p := c12GenPayload(r, path != "condFinal", block())
 		sc, h := c12PluginScript(r, p)
 		if h > horizon {
 			horizon = h
@@ -316,9 +333,15 @@ func c12GenPlugin(r *Rng) c12Input {
 func c12PluginEdge() []c12Input {
 	r := NewRng(343434)
 	var out []c12Input
+	type pe struct {
+		iv  time.Duration
+		blk uint64
+	}
 	for _, path := range []string{"log", "recFinal", "condFinal"} {
-		for _, iv := range []time.Duration{50 * time.Millisecond, 0} {
-			p := c12GenPayload(r, path != "condFinal", 100)
+		// … and once for a payload checked on block 0 (a trigger nobody stamped), 1 and 2^64-1
+		for _, e := range []pe{{50 * time.Millisecond, 100}, {0, 100}, {50 * time.Millisecond, 0}, {time.Second, 1}, {50 * time.Millisecond, ^uint64(0)}} {
+			iv := e.iv
+			p := c12GenPayload(r, path != "condFinal", e.blk)
 			f1 := c12GenRes(r, p, 2)
 			f1.RetryInterval = iv
 			f2 := c12GenRes(r, p, 2)
@@ -346,23 +369,24 @@ func c12RunStress(t *testing.T, in c12Input) c12Impl {
 	s := *in.Stress
 	clk := c12Clock{start: time.Now()}
 	q := stores.NewRetryQueue(quietLogger)
-	out := &c12StressOut{Enq: make([][]int64, s.G), D1: [][2]int64{}, D2: [][2]int64{}}
-	conv := func(ps []ocr2keepers.UpkeepPayload) [][2]int64 {
-		r := make([][2]int64, 0, len(ps))
+	bOld, bNew := s.blocks()
+	out := &c12StressOut{Enq: make([][]int64, s.G), D1: [][2]uint64{}, D2: [][2]uint64{}}
+	conv := func(ps []ocr2keepers.UpkeepPayload) [][2]uint64 {
+		r := make([][2]uint64, 0, len(ps))
 		for _, p := range ps {
 			i, err := strconv.Atoi(strings.TrimPrefix(p.WorkID, "w"))
 			if err != nil || i < 0 || i >= s.W {
 				out.Bad++
 				continue
 			}
-			r = append(r, [2]int64{int64(i), int64(p.Trigger.BlockNumber)})
+			r = append(r, [2]uint64{uint64(i), uint64(p.Trigger.BlockNumber)})
 		}
 		return r
 	}
 	time.Sleep(time.Microsecond)
 	out.T0 = clk.ns()
 	for i := 0; i < s.W; i++ {
-		_ = q.Enqueue(types.RetryRecord{Payload: c12StressPayload(i, 1), Interval: 1})
+		_ = q.Enqueue(types.RetryRecord{Payload: c12StressPayload(i, bOld), Interval: 1})
 	}
 	time.Sleep(10 * time.Nanosecond)
 	out.T1 = clk.ns()
@@ -384,7 +408,7 @@ func c12RunStress(t *testing.T, in c12Input) c12Impl {
 			spin()
 			for j := 0; j < s.Per; j++ {
 				inv := stamp.Add(1)
-				_ = q.Enqueue(types.RetryRecord{Payload: c12StressPayload(g*s.Per+j, 2), Interval: 1})
+				_ = q.Enqueue(types.RetryRecord{Payload: c12StressPayload(g*s.Per+j, bNew), Interval: 1})
 				st = append(st, inv, stamp.Add(1))
 				done.Add(1)
 			}
@@ -425,6 +449,9 @@ func c12GenStress(r *Rng, big bool) c12Input {
 	if r.Chance(20) {
 		s.N1 = r.Range(1, s.W)
 	}
+	// the two check blocks: ordinary, or at the ends of the domain (0 → 1, 0 → 2^64-1, across the sign bit, at the top)
+	bl := [][2]uint64{{1, 2}, {1, 2}, {1, 2}, {0, 1}, {0, ^uint64(0)}, {1<<63 - 1, 1 << 63}, {^uint64(0) - 1, ^uint64(0)}}[r.Intn(7)]
+	s.Old, s.New = bl[0], bl[1]
 	return c12Input{Kind: "stress", Stress: &s}
 }
 
